@@ -192,7 +192,7 @@ func vrHasChild(i Index, x digest.Digest) bool {
 	return false
 }
 
-// two-state checks for one operation; skipD3 leaves out the recorded finding D3 (see KNOWN_FINDINGS.txt)
+// two-state checks for one operation
 func vrCheckOp(before, after Index, op vrOp) string {
 	if !vrWant("op") {
 		return ""
@@ -204,14 +204,8 @@ func vrCheckOp(before, after Index, op vrOp) string {
 		if t != "" && ta[t] != op.d.Digest {
 			return fmt.Sprintf("(a) after AddDesc the tag %q does not resolve to the inserted digest", t)
 		}
-		d3 := false // an entry of the inserted digest carried the other kind of annotation (finding D3)
-		for _, e := range before.Manifests {
-			if e.Digest == op.d.Digest && ((t == "" && vrSubj(op.d) != "" && vrTag(e) != "") || (t != "" && vrSubj(e) != "")) {
-				d3 = true
-			}
-		}
 		for k, v := range tb {
-			if k != t && ta[k] != v && !d3 {
+			if k != t && ta[k] != v {
 				return fmt.Sprintf("(a) AddDesc changed the unrelated tag %q", k)
 			}
 		}
